@@ -608,3 +608,48 @@ def c13(ctx):
                   "yield a path",
                   assumptions=["nearest-neighbour ties are nondeterministic in the model (kd-tree order)",
                                "the real planner's thread_rng is sampled; a run with zero successful real plans is reported in the evidence"])
+
+
+# ----------------------------------------------------------------------------- C12
+@check("C12")
+def c12(ctx):
+    # the race / algorithm model: every schedule of 2 strategies x every oracle outcome
+    tlc(ctx, "MC_Stroke", workers=8, xmx="12g")
+    opwv(ctx, ["record", "stroke", ctx.path("stroke.trace")], timeout=3300)
+    viols, done = trace_validate(ctx, "Trace_Stroke", ctx.path("stroke.trace"))
+    ev = read_ndjson(ctx.path("stroke.trace"))
+    # the plan header preceding each event gives the scenario class for the signature
+    hdr = None
+    hdr_of = []
+    for e in ev:
+        if e["ev"] == "plan":
+            hdr = e
+        hdr_of.append(hdr)
+    for v in viols:
+        e = ev[v["l"] - 1]
+        h = hdr_of[v["l"] - 1] or {}
+        for clause in v["clause"]:
+            cls = e.get("obstacle") or h.get("obstacle", "?")
+            ctx.violation("%s:%s" % (clause, cls), "event #%d %s ; plan %s" % (v["l"], json.dumps(e)[:500], json.dumps(h)[:300]),
+                          {"event": e, "plan": h})
+    plans = [e for e in ev if e["ev"] == "plan"]
+    ok = [e for e in plans if e["outcome"] == "ok"]
+    ctx.evaluations += len(ev)
+    for e in ok:
+        ctx.nontrivial.add((e["case"], e["pool"], e["rep"]))
+    ctx.extra["plans"] = len(plans)
+    ctx.extra["successful_plans_examined"] = len(ok)
+    ctx.extra["waypoints_judged"] = sum(1 for e in ev if e["ev"] == "wp")
+    ctx.extra["window_kinds"] = {k: sum(e["windows"][k] for e in plans) for k in ("direct", "bisect", "rrt")}
+    if ok:
+        ctx.sample(ok[0])
+        ctx.sample(next(e for e in ev if e["ev"] == "wp"))
+    if not ok:
+        raise core.ToolError("no plan succeeded: the conditional property was not exercised (no evidence)")
+    return finish(ctx, rule="(a) MC_Stroke: every interleaving of 2 strategies (onboard, 3 windows, end check, collision check, publish) x "
+                  "every oracle outcome: RaceOK, GrammarOK, OrderOK; (b) real Cartesian::plan on an irb2400 cell: straight strokes with "
+                  "free / blocking / grazing obstacle, 2..4 stroke poses, step sizes, cost limits, recursion depths, include on/off, rayon "
+                  "pools and repeats; every waypoint of every returned plan is one event judged by the grammar automaton and the "
+                  "per-waypoint clauses of Trace_Stroke; non-trivial = successful plans",
+                  assumptions=["whether planning succeeds is not demanded (conditional property); a run without any successful plan is a "
+                               "tool error, not a pass", "cost and schedule clauses apply to plans without RRT-closed windows"])
